@@ -97,7 +97,7 @@ SEQ = {
     "C07": dict(oracle="C07", proj=(), reference=False),
     "C10": dict(oracle=None, proj=("ev", "O"), reference=True),
     "C13": dict(oracle=None, proj=("ev", "probe", "O"), reference=True),
-    "C14": dict(oracle="C14", proj=EV, reference=True),
+    "C14": dict(oracle="C14", proj=("ev", "tap"), reference=True),
     "C17": dict(oracle="C17", proj=EV, reference=False),
 }
 
